@@ -166,7 +166,7 @@ def _privatise(t):
     return t
 
 
-def generate(unit, repo, vacuity=False, falsify=False, stub_fns=None):
+def generate(unit, repo, vacuity=False, falsify=False, stub_fns=None, drop_asserts=None):
     from . import extract as _ex
     _ex.FEATURES = set(unit.features) if unit.features is not None else {'parallel'}
     _ex.Source._cache.clear()
@@ -346,6 +346,12 @@ def generate(unit, repo, vacuity=False, falsify=False, stub_fns=None):
                 out = '%s%s {\n/*@FN:%s*/\n%s    %s\n}\n' % ((hoisted + '\n') if hoisted else '', ih, key, ('    ' + attr_ + '\n') if attr_ else '', text)
             else:
                 out = '/*@FN:%s*/\n%s%s\n' % (key, (attr_ + '\n') if attr_ else '', text)
+            if drop_asserts:
+                # (driver, second pass) labelled assertions of OTHER properties that failed in this function are left out, so that the
+                # obligations of the property at hand are not proved under an assumption the verifier could not discharge
+                for (dk, dl) in drop_asserts:
+                    if dk == key:
+                        out = re.sub(r'assert\(/\*@L:%s\*/.*?/\*@E\*/\);' % re.escape(dl), '', out, flags=re.S)
             # obligations
             fprops = spec.props
             for c in spec.ensures:
